@@ -9,6 +9,11 @@ defers registered so far).
   `break`/`return` (`brk`), `continue` (`cont`) and `.try` propagation (`tryS`, a conditional
   `brk`). Every runtime condition is a *decision* drawn from an oracle, so one semantics
   covers every path.
+* `loopC l cond body` is `l: while { cond; <decision> } { body }`, a loop whose condition is a
+  block with statements (and jumps) of its own; `loop l body` is the special case of a
+  condition without statements. `Expr::While` pushes the loop's frame BEFORE the condition is
+  compiled (fix 2c2d7e7; before it the frame was pushed only after the condition, so a
+  `break l` in the condition found no frame `l` and unwound the whole function).
 * `compileStmts` mirrors `compile_stmt` / `Expr::Block` / `Expr::While` / `break_to_label` /
   `run_defers_up_to`: a *static* `defer_stack` of frames `(id?, deferred bodies)`;
   `Stmt::Defer` pushes the deferred expression onto the top frame at compile time and
@@ -40,6 +45,9 @@ inductive Stmt where
   | defer (body : Stmts)
   | block (label : Option Nat) (body : Stmts)
   | loop (label : Nat) (body : Stmts)
+  /-- `label: while { cond; <decision> } { body }`: the condition is a block whose tail
+  expression is the decision -/
+  | loopC (label : Nat) (cond : Stmts) (body : Stmts)
   | ifS (body : Stmts)
   | brk (label : Nat)
   | cont (label : Nat)
@@ -62,6 +70,10 @@ inductive T where
   /-- `exitCode`: the defers compiled in the block's exit block (fall-through only) -/
   | block (label : Option Nat) (body : Ts) (exitCode : Ts)
   | loop (label : Nat) (body : Ts) (exitCode : Ts)
+  /-- a loop whose condition is a block: the condition's statements, the decision (the block's
+  tail expression), `condExit` (the condition block's exit block: its defers), the branch, the
+  body block -/
+  | loopC (label : Nat) (cond : Ts) (condExit : Ts) (body : Ts) (exitCode : Ts)
   | ifT (body : Ts) (exitCode : Ts)
   /-- defers compiled inline, then the jump -/
   | jump (isCont : Bool) (label : Nat) (code : Ts)
@@ -143,6 +155,15 @@ def compileStmt (emit : Emit) : Stmt → List Frame → Option (Ts × List Frame
     match closeBlock emit (compileStmts emit body ((none, []) :: (some label, []) :: fr)) with
     | none => none
     | some (tb, ex) => some (.cons (.loop label tb ex) .nil, fr, false)
+  | .loopC label cond body, fr =>
+    -- `Expr::While`: the loop's own frame is pushed BEFORE the condition is compiled and popped
+    -- after the body; the condition is an ordinary `Expr::Block` (scope id `none`), so is the body
+    match closeBlock emit (compileStmts emit cond ((none, []) :: (some label, []) :: fr)) with
+    | none => none
+    | some (tc, exc) =>
+      match closeBlock emit (compileStmts emit body ((none, []) :: (some label, []) :: fr)) with
+      | none => none
+      | some (tb, ex) => some (.cons (.loopC label tc exc tb ex) .nil, fr, false)
   | .ifS body, fr =>
     match closeBlock emit (compileStmts emit body ((none, []) :: fr)) with
     | none => none
@@ -181,6 +202,7 @@ def deferDepthStmt : Stmt → Nat
   | .defer b => deferDepth b + 1
   | .block _ body => deferDepth body
   | .loop _ body => deferDepth body
+  | .loopC _ cond body => max (deferDepth cond) (deferDepth body)
   | .ifS body => deferDepth body
   | .brk _ => 0
   | .cont _ => 0
@@ -264,6 +286,24 @@ def execT (fuel : Nat) : T → St → Sig × St
         match execTs fuel body st1 with
         | (.normal, st') => loopNext label (execTs fuel exitCode st')
         | r => loopNext label r) fuel st
+  | .loopC label cond condExit body exitCode, st =>
+    iter (fun st =>
+      -- header: the condition block's statements; a jump in them leaves the block (its defers
+      -- were compiled inline at the jump) and is handled like a jump in the body
+      match execTs fuel cond st with
+      | (.normal, st0) =>
+        -- the tail expression (the decision) is evaluated, THEN the exit block runs the defers
+        match st0.decide with
+        | (d, st1) =>
+          match execTs fuel condExit st1 with
+          | (.normal, st2) =>
+            if d then
+              match execTs fuel body st2 with
+              | (.normal, st') => loopNext label (execTs fuel exitCode st')
+              | r => loopNext label r
+            else (some .normal, st2)
+          | r => loopNext label r
+      | r => loopNext label r) fuel st
   | .jump isCont l code, st =>
     match execTs fuel code st with
     | (.normal, st') => (if isCont then .cont l else .brk l, st')
